@@ -461,6 +461,20 @@ func (s *slowWriter) Write(p []byte) (int, error) {
 	return s.buf.Write(p)
 }
 
+// eofSignalReader calls atEOF when it reports the end of the data.
+type eofSignalReader struct {
+	r     io.Reader
+	atEOF func()
+}
+
+func (e *eofSignalReader) Read(p []byte) (int, error) {
+	n, err := e.r.Read(p)
+	if err == io.EOF {
+		e.atEOF()
+	}
+	return n, err
+}
+
 // c17Pad grows the file (and bbolt's memory map) once and frees the pages again.
 func c17Pad(w *kit.World) error {
 	if err := w.Z.Db.Update(kit.NewCtx(), func(ctx boltz.MutateContext) error {
@@ -687,6 +701,134 @@ func runC17Concurrent(c c17Case) kit.Result {
 		}
 		gen = g
 		res.Classes = append(res.Classes, "snapshot-streamed-beside-a-writer")
+	}
+	if c.Readers%2 == 1 {
+		// overlapping snapshot requests: one goroutine takes file snapshots back to back; beside it a generation is
+		// committed and then a snapshot requested, which must hold that generation (or a later one)
+		if err := c17Pad(w); err != nil {
+			res.Err = err
+			return res
+		}
+		stopSnaps := make(chan struct{})
+		snapsDone := make(chan error, 1)
+		pathA, pathB := filepath.Join(w.Z.Dir, "snap-a.bolt"), filepath.Join(w.Z.Dir, "snap-b.bolt")
+		go func() {
+			for {
+				select {
+				case <-stopSnaps:
+					snapsDone <- nil
+					return
+				default:
+				}
+				if _, _, err := w.Z.Db.Snapshot(pathA); err != nil {
+					snapsDone <- fmt.Errorf("back-to-back snapshot: %v", err)
+					return
+				}
+			}
+		}()
+		var verr error
+		for k := 0; k < 4 && verr == nil; k++ {
+			gen++
+			if err := writeGeneration(w, c.Entities, gen, false); err != nil {
+				verr = fmt.Errorf("writing generation %d beside snapshots: %v", gen, err)
+				break
+			}
+			_ = os.Remove(pathB)
+			actual, _, err := w.Z.Db.Snapshot(pathB)
+			if err != nil {
+				verr = fmt.Errorf("snapshot requested beside another one: %v", err)
+				break
+			}
+			if actual != pathB {
+				// (the file of the other request is being rewritten: it is not looked into)
+				verr = fmt.Errorf("Snapshot(%s), requested after generation %d had been committed and while another snapshot was being taken, says it wrote %s", pathB, gen, actual)
+				break
+			}
+			held := -1
+			sdb, err := bbolt.Open(actual, 0600, &bbolt.Options{ReadOnly: true, Timeout: 5 * time.Second})
+			if err != nil {
+				verr = fmt.Errorf("the snapshot file %s returned by Snapshot cannot be opened: %v", actual, err)
+				break
+			}
+			_ = sdb.View(func(tx *bbolt.Tx) error {
+				if b := boltz.Path(tx, "root", "things", "e0"); b != nil {
+					if name := b.GetString(kit.FName); name != nil {
+						var gi int
+						_, _ = fmt.Sscanf(*name, "g%04d-e%d", &held, &gi)
+					}
+				}
+				return nil
+			})
+			_ = sdb.Close()
+			if held < gen {
+				verr = fmt.Errorf("a snapshot requested after generation %d had been committed (while another snapshot was being taken) holds generation %d", gen, held)
+			}
+		}
+		close(stopSnaps)
+		if serr := <-snapsDone; serr != nil && verr == nil {
+			verr = serr
+		}
+		if verr != nil {
+			res.Err = verr
+			return res
+		}
+		res.Classes = append(res.Classes, "overlapping-snapshot-requests")
+	} else {
+		// a write transaction is in flight when a restore arrives: the restore waits for it, and afterwards the database
+		// is the snapshot (whatever that transaction committed went into the database that was replaced)
+		snapData, snapID, err := takeSnapshot(w, "file")
+		if err != nil {
+			res.Err = fmt.Errorf("snapshot: %v", err)
+			return res
+		}
+		genSnap := gen
+		gen++
+		if err := writeGeneration(w, c.Entities, gen, false); err != nil {
+			res.Err = fmt.Errorf("setup: %v", err)
+			return res
+		}
+		started, eof, wdone := make(chan struct{}), make(chan struct{}), make(chan error, 1)
+		go func() {
+			wdone <- w.Z.Db.Update(kit.NewCtx(), func(ctx boltz.MutateContext) error {
+				close(started)
+				<-eof
+				time.Sleep(25 * time.Millisecond)
+				b := boltz.GetOrCreatePath(ctx.Tx(), "root", "late-writer")
+				b.SetString("k", "v", nil)
+				return b.GetError()
+			})
+		}()
+		<-started
+		func() {
+			defer func() {
+				if p := recover(); p != nil {
+					res.Err = fmt.Errorf("restore beside a write transaction in flight panicked: %v", p)
+				}
+			}()
+			var once sync.Once
+			w.Z.Db.RestoreFromReader(&eofSignalReader{r: bytes.NewReader(snapData), atEOF: func() { once.Do(func() { close(eof) }) }})
+		}()
+		if res.Err != nil {
+			abandon = true
+			return res
+		}
+		if werr := <-wdone; werr != nil {
+			res.Err = fmt.Errorf("the write transaction that was in flight when the restore arrived failed: %v", werr)
+			return res
+		}
+		g, rerr := readGeneration(w, c.Entities)
+		var late bool
+		_ = w.Z.Db.View(func(tx *bbolt.Tx) error {
+			late = boltz.Path(tx, "root", "late-writer") != nil
+			return nil
+		})
+		gotID, _ := w.Z.Db.GetSnapshotId()
+		if rerr != nil || g != genSnap || late || gotID == nil || *gotID != snapID {
+			res.Err = fmt.Errorf("a snapshot of generation %d (id %s) was restored while a write transaction was in flight: afterwards the database shows generation %d (error %v), the late transaction's bucket is there: %v, snapshot id %v", genSnap, snapID, g, rerr, late, deref(gotID))
+			return res
+		}
+		gen = genSnap
+		res.Classes = append(res.Classes, "write-tx-in-flight-when-restore-arrives")
 	}
 	snapGen := gen
 	data, _, err := takeSnapshot(w, "file")
